@@ -171,6 +171,41 @@ func genCase(r *vh.Rng) Case {
 		dumpP = []int{10, 3, 0}[r.Intn(3)]
 	}
 	nops := 1 + r.Intn(40)
+	if profile == 1 && r.Chance(50) {
+		// scripted opening aimed at the bookkeeping of _delete / fixPropOrder: several integer keys, an
+		// enumeration (orders the list), deletion of most of them, new integer keys, another enumeration
+		t := r.Intn(n)
+		cand := []int{0, 1, 2, 3, 4, 5, 6, 14, 15}
+		for i := len(cand) - 1; i > 0; i-- {
+			j := r.Intn(i + 1)
+			cand[i], cand[j] = cand[j], cand[i]
+		}
+		m := 3 + r.Intn(3)
+		val := 1
+		mkdef := func(k int) Op {
+			v := val
+			val = val%6 + 1
+			return Op{T: "def", O: t, K: k, S: 1 + r.Intn(3), R: t, D: &Desc{V: &v, W: 2, E: 2, C: 2}}
+		}
+		for _, k := range cand[:m] {
+			c.Ops = append(c.Ops, mkdef(k))
+		}
+		c.Ops = append(c.Ops, Op{T: "keys", O: t, S: 1 + r.Intn(3), R: t})
+		nd := m - r.Intn(2)
+		for _, k := range cand[:nd] {
+			c.Ops = append(c.Ops, Op{T: "del", O: t, K: k, S: []int{0, 2, 3}[r.Intn(3)], St: r.Bool(), R: t})
+		}
+		for _, k := range cand[m : m+1+r.Intn(2)] {
+			c.Ops = append(c.Ops, mkdef(k))
+		}
+		c.Ops = append(c.Ops, Op{T: "keys", O: t, S: 1 + r.Intn(3), R: t, Dump: r.Chance(30)})
+		for _, k := range cand[:m] { // the scripted keys stay in play
+			pool[r.Intn(poolN)] = k
+		}
+		if nops > 25 {
+			nops = 25
+		}
+	}
 	for i := 0; i < nops; i++ {
 		op := Op{O: r.Intn(n), K: pool[r.Intn(poolN)], S: r.Intn(4), St: r.Bool(), R: 0}
 		op.R = op.O
